@@ -96,7 +96,30 @@ def metric_grid():
   g['pd_stce_pp'] = (M.PerDomainMetric(g['stce_b'][0], ND), 'ce')
   g['pd_stc'] = (M.PerDomainMetric(g['stc_a'][0], ND), 'int')
   g['pd_cm'] = (M.PerDomainMetric(g['cm'][0], ND), 'int')
+  # the wrapper over NON-SCALAR bases with num_domains != the base's sizes, num_domains == 1, and nested wrappers
+  g['pd_cm4'] = (M.PerDomainMetric(g['cm'][0], 4), 'int')
+  g['pd1_cm'] = (M.PerDomainMetric(g['cm'][0], 1, 'dom1'), 'int')
+  g['pd1_acc'] = (M.PerDomainMetric(g['acc'][0], 1, 'dom1'), 'int')
+  g['pd_nest_eq'] = (M.PerDomainMetric(M.PerDomainMetric(g['acc'][0], ND), ND, 'domb'), 'int')
+  g['pd_nest_ne'] = (M.PerDomainMetric(M.PerDomainMetric(g['acc'][0], ND), 2, 'dom2'), 'int')
+  g['pd_nest_ce'] = (M.PerDomainMetric(M.PerDomainMetric(g['ce'][0], ND), 2, 'dom2'), 'ce')
   return g
+
+
+def pdpp_grid():
+  """PerDomainMetric over a PER-POSITION base with num_domains != sequence length (own Model: see known finding)."""
+  from fedjax.core import metrics as M
+  return {'pd_sta_pp4': (M.PerDomainMetric(M.SequenceTokenAccuracy('ys', 'preds', (0, 1), None, True), 4), 'int')}
+
+
+# the per-domain DEFINITION: entry (d_outer, .., d_inner, k) of the wrapper = entry k of the base metric over the real
+# examples whose domain features equal (d_outer, .., d_inner).  name -> (base metric name, [(feature, num_domains)] outer first)
+PD_SPEC = {'pd_acc': ('acc', [('domain_id', ND)]), 'pd_ce': ('ce', [('dom', ND)]), 'pd_sta_pp': ('sta_c', [('domain_id', ND)]),
+           'pd_stce_pp': ('stce_b', [('domain_id', ND)]), 'pd_stc': ('stc_a', [('domain_id', ND)]),
+           'pd_cm': ('cm', [('domain_id', ND)]), 'pd_cm4': ('cm', [('domain_id', 4)]), 'pd1_cm': ('cm', [('dom1', 1)]),
+           'pd1_acc': ('acc', [('dom1', 1)]), 'pd_nest_eq': ('acc', [('domb', ND), ('domain_id', ND)]),
+           'pd_nest_ne': ('acc', [('dom2', 2), ('domain_id', ND)]), 'pd_nest_ce': ('ce', [('dom2', 2), ('domain_id', ND)]),
+           'pd_sta_pp4': ('sta_c', [('domain_id', 4)]), 'p_pd_acc': ('p_acc', [('domain_id', ND)])}
 
 
 def plain_grid():
@@ -108,13 +131,14 @@ def plain_grid():
 
 METRIC_NAMES = ['ce', 'acc', 'top1', 'top2', 'top3', 'top9', 'top0', 'stce_a', 'stce_b', 'stce_c', 'sce_a', 'sce_b', 'sta_a', 'sta_b',
                 'sta_c', 'sttk_a', 'sttk_b', 'sttk_c', 'stc_a', 'stc_b', 'stc_c', 'sc_a', 'sc_b', 'str_a', 'str_b', 'oov_a',
-                'oov_b', 'oov_c', 'oov_e', 'str_0', 'len_a', 'len_b', 'cm', 'pd_acc', 'pd_ce', 'pd_sta_pp', 'pd_stce_pp', 'pd_stc', 'pd_cm']
+                'oov_b', 'oov_c', 'oov_e', 'str_0', 'len_a', 'len_b', 'cm', 'pd_acc', 'pd_ce', 'pd_sta_pp', 'pd_stce_pp', 'pd_stc', 'pd_cm',
+                'pd_cm4', 'pd1_cm', 'pd1_acc', 'pd_nest_eq', 'pd_nest_ne', 'pd_nest_ce']
 PLAIN_NAMES = ['p_acc', 'p_ce', 'p_top2', 'p_cm', 'p_pd_acc']
 LOWP_NAMES = ['acc', 'top1', 'top2', 'top0', 'sta_a', 'sta_b', 'sta_c', 'sttk_a', 'sttk_b', 'stc_a', 'sc_a', 'str_a', 'oov_a',
               'oov_b', 'len_a', 'cm', 'pd_acc', 'pd_sta_pp', 'pd_stc', 'pd_cm']
 # a second Model built from the SAME apply function and the SAME eval_metrics keys as 'plain' but other hyper-parameters
 PLAIN2_NAMES = ['q_acc', 'q_ce', 'q_top2', 'q_cm', 'q_pd_acc']
-NAMES = {'dict': None, 'plain': PLAIN_NAMES, 'plain2': PLAIN2_NAMES}
+NAMES = {'dict': None, 'plain': PLAIN_NAMES, 'plain2': PLAIN2_NAMES, 'pdpp': ['pd_sta_pp4']}
 
 
 def _mkey(which, name):
@@ -122,7 +146,7 @@ def _mkey(which, name):
   return 'p_' + name[2:] if which == 'plain2' else name
 
 _STATE = {}
-CFG_KEYS = ('pool_seed', 'api', 'batches', 'model', 'form', 'cform', 'idtype', 'maskdt', 'arr', 'kw', 'ctx', 'pool', 'again')
+CFG_KEYS = ('pool_seed', 'api', 'batches', 'model', 'form', 'cform', 'idtype', 'maskdt', 'arr', 'kw', 'ctx', 'pool', 'again', 'forder', 'nf')
 
 
 def plain2_grid():
@@ -137,7 +161,7 @@ def _setup():
     return _STATE
   import fedjax
   from fedjax.core import metrics as M
-  grid, plain, plain2 = metric_grid(), plain_grid(), plain2_grid()
+  grid, plain, plain2, pdpp = metric_grid(), plain_grid(), plain2_grid(), pdpp_grid()
   assert list(grid) == METRIC_NAMES and list(plain) == PLAIN_NAMES and list(plain2) == PLAIN2_NAMES
   NAMES['dict'] = METRIC_NAMES
 
@@ -147,7 +171,7 @@ def _setup():
       out |= classes(m.base)
     return out
   covered = set()
-  for m, _ in list(grid.values()) + list(plain.values()):
+  for m, _ in list(grid.values()) + list(plain.values()) + list(pdpp.values()):
     covered |= classes(m)
   all_metrics = {n for n, c in inspect.getmembers(M, inspect.isclass)
                  if issubclass(c, M.Metric) and c is not M.Metric and c.__module__ == M.__name__}
@@ -160,8 +184,8 @@ def _setup():
   def apply_plain(params, batch):
     del params
     return batch['pred']
-  _STATE['grid'] = {'dict': grid, 'plain': plain, 'plain2': plain2}
-  _STATE['apply'] = {'dict': apply_dict, 'plain': apply_plain, 'plain2': apply_plain}
+  _STATE['grid'] = {'dict': grid, 'plain': plain, 'plain2': plain2, 'pdpp': pdpp}
+  _STATE['apply'] = {'dict': apply_dict, 'plain': apply_plain, 'plain2': apply_plain, 'pdpp': apply_dict}
   _STATE['model'] = {
       'dict': fedjax.Model(init=None, apply_for_train=None, apply_for_eval=apply_dict, train_loss=None,
                            eval_metrics={k: m for k, (m, _) in grid.items()}),
@@ -169,6 +193,8 @@ def _setup():
                             eval_metrics={k: m for k, (m, _) in plain.items()}),
       'plain2': fedjax.Model(init=None, apply_for_train=None, apply_for_eval=apply_plain, train_loss=None,
                              eval_metrics={_mkey('plain2', k): m for k, (m, _) in plain2.items()}),
+      'pdpp': fedjax.Model(init=None, apply_for_train=None, apply_for_eval=apply_dict, train_loss=None,
+                           eval_metrics={k: m for k, (m, _) in pdpp.items()}),
   }
   _STATE['kept'] = None
   _STATE['evaluator'] = {}
@@ -187,7 +213,8 @@ def make_pool(seed, variant='std'):
     p = make_pool(seed)
     return {'y': p['y'].astype(np.uint8), 'pred': p['pred'].astype(np.float16), 'ys': p['ys'].astype(np.int8),
             'preds': np.asarray(jnp.asarray(p['preds'], dtype=jnp.bfloat16)), 'domain_id': p['domain_id'].astype(np.int64),
-            'dom': p['dom'].astype(np.int64), 'idx': p['idx']}
+            'dom': p['dom'].astype(np.int64), 'dom1': p['dom1'].astype(np.int64), 'domb': p['domb'].astype(np.int64),
+            'dom2': p['dom2'].astype(np.int64), 'idx': p['idx']}
   rng = random.Random(seed * 7919 + 13)
   n = N_REAL + N_GARB + 1
   y = np.zeros(n, np.int32)
@@ -208,7 +235,16 @@ def make_pool(seed, variant='std'):
     for l in range(L):
       for v in range(V):
         preds[i, l, v] = rng.choice(special) if garbage and rng.random() < 0.5 else rng.randrange(-12, 13) / 4
+  # magnitude: two real rows with logits scaled by 2^100 / 2^-100 (cross-entropy ~1e30 resp. ~log(C))
+  pred[N_REAL - 1] *= np.float32(2.0 ** 100)
+  preds[N_REAL - 1] *= np.float32(2.0 ** 100)
+  pred[N_REAL - 2] *= np.float32(2.0 ** -100)
+  preds[N_REAL - 2] *= np.float32(2.0 ** -100)
+  domb = np.array([rng.randrange(ND) for _ in range(n)], np.int32)
+  dom2 = np.array([rng.randrange(2) for _ in range(n)], np.int32)
+  domb[ZERO] = dom2[ZERO] = 0
   return {'y': y, 'pred': pred, 'ys': ys, 'preds': preds, 'domain_id': dom, 'dom': dom.copy(),
+          'dom1': np.zeros(n, np.int32), 'domb': domb, 'dom2': dom2,
           'idx': np.arange(1, n + 1, dtype=np.int32) * (np.arange(n) != ZERO)}
 
 
@@ -223,10 +259,14 @@ def pool_stats(seed, variant='std'):
     return st['pools'][(seed, variant)]
   pool = make_pool(seed, variant)
   out = {'pool': pool}
-  for which in ('dict', 'plain', 'plain2'):
+  for which in ('dict', 'plain', 'plain2', 'pdpp'):
     pred = st['apply'][which](None, pool)
     for name, (metric, _) in st['grid'][which].items():
-      s = jax.vmap(metric.evaluate_example)(pool, pred)
+      try:
+        s = jax.vmap(metric.evaluate_example)(pool, pred)
+      except Exception as ex:  # pylint: disable=broad-except   (only under non-default global flags)
+        out[name] = ('error', (), type(ex).__name__ + ': ' + str(ex)[:150])
+        continue
       n = len(pool['y'])
       if isinstance(s, M.MeanStat):
         a = np.asarray(s.accum, np.float64).reshape(n, -1)
@@ -250,11 +290,12 @@ def _garbage(rng):
   return rng.randrange(N_REAL, N_REAL + N_GARB)
 
 
-def gen_batches(rng, n_real, sizes=(4, 2, 1), masked=True, fully_masked=0.12):
+def gen_batches(rng, n_real, sizes=(4, 2, 1), masked=True, fully_masked=0.12, nf=0.0):
   """A random partition of n_real pool rows (random order, repetitions allowed) into batches of the
   given sizes; with `masked`, batches carry a mask and masked rows (garbage or zero rows) at random
   positions, and some batches are entirely masked."""
-  real = [rng.randrange(N_REAL) for _ in range(n_real)]
+  # nf: probability that a REAL row is one of the rows with NaN / Inf predictions
+  real = [_garbage(rng) if rng.random() < nf else rng.randrange(N_REAL) for _ in range(n_real)]
   batches = []
   while real:
     if masked:
@@ -316,7 +357,8 @@ def configs(tier, rng):
       b = gen_batches(rng, rng.randrange(0, 13), masked=masked)
     cfg = {'pool_seed': seed, 'api': api, 'batches': b, 'model': model,
            'form': rng.choice(['list', 'tuple', 'iter', 'gen', 'map', 'partial'] + (['view', 'view'] if not isinstance(b, list) else [])),
-           'cform': rng.choice(['list', 'tuple', 'gen']), 'idtype': rng.choice(['bytes', 'str', 'int']),
+           'cform': rng.choice(['list', 'tuple', 'gen']), 'idtype': rng.choice(['bytes', 'str', 'int', 'sentinel']),
+           'forder': rng.randrange(0, 9),
            'maskdt': rng.choice(['bool'] * 9 + ['int32', 'float32', 'uint8']), 'arr': rng.choice(['np', 'np', 'jax']),
            'kw': rng.random() < 0.25}
     if i % 6 == 2:
@@ -324,6 +366,16 @@ def configs(tier, rng):
     if cfg['model'] != 'dict' and i % 2 == 0:
       cfg['ctx'] = 'nojit'                         # jax.disable_jit() around the whole call (small models only: eager is slow)
     out.append(cfg)
+  # non-finite statistics on REAL rows: padded / unpadded / differently batched evaluations must agree on them
+  for i in range({'quick': 3, 'thorough': 40, 'search': 40}.get(tier, 3)):
+    out.append({'pool_seed': seeds[0], 'api': ['evaluate_model', 'evaluator_global', 'evaluate_batch'][i % 3],
+                'batches': gen_batches(rng, rng.randrange(2, 9), sizes=(4, 2), nf=0.3)[:(1 if i % 3 == 2 else None)],
+                'model': 'dict', 'form': 'list', 'maskdt': 'bool', 'arr': 'np', 'forder': i, 'nf': True})
+  # PerDomainMetric over a per-position base with num_domains != sequence length (own Model)
+  for i in range({'quick': 2, 'thorough': 6, 'search': 6}.get(tier, 2)):
+    out.append({'pool_seed': seeds[0], 'api': ['evaluate_model', 'evaluate_batch', 'evaluator_global'][i % 3],
+                'batches': gen_batches(rng, rng.randrange(1, 5), sizes=(2,), fully_masked=0.0)[:(1 if i % 3 == 1 else None)],
+                'model': 'pdpp', 'form': 'list'})
   # narrow dtypes for the features: integer-valued metrics only (cross-entropy in float16 is not comparable at 1e-5)
   for i in range({'quick': 2, 'thorough': 30, 'search': 40}.get(tier, 2)):
     out.append({'pool_seed': seeds[0], 'api': ['evaluate_model', 'evaluator_global', 'evaluate_batch'][i % 3],
@@ -387,17 +439,17 @@ def evaluator_configs(tier, rng):
   n = {'quick': 4, 'thorough': 24, 'search': 40}.get(tier, 4)
   seed = rng.randrange(1, 10 ** 6)
   for i in range(n):
-    backend = 'debug' if i % 2 == 0 else 'jit'
+    backend = ['debug', 'jit', 'debug', 'pmap'][i % 4] if tier == 'quick' else ['debug', 'jit', 'pmap'][i % 3]
     calls = []
     for c in range(2 if tier == 'quick' else rng.choice([2, 3])):
       small = backend == 'debug' and i % 4 == 0      # jit disabled + all metric configurations: keep it small
-      clients = [gen_batches(rng, rng.randrange(1, 3 if small else 6), sizes=(2, 1), fully_masked=0.0)
+      clients = [gen_batches(rng, rng.randrange(1, 3 if small else 6), sizes=(2,) if backend == 'pmap' else (2, 1), fully_masked=0.0)
                  for _ in range(1 if small else rng.choice([1, 2]))]
       empty = rng.choice([[], [], [{'rows': [_garbage(rng), _garbage(rng)], 'mask': [False, False]}]])
       clients.insert(rng.randrange(0, len(clients) + 1) if c else len(clients), empty)
       calls.append({'mode': rng.choice(['global', 'per_client']), 'clients': clients})
     yield {'pool_seed': seed, 'backend': backend, 'calls': calls, 'model': 'plain' if i % 4 == 2 else 'dict',
-           'interleave': i % 4 in (1, 2), 'idtype': ['bytes', 'str', 'int'][i % 3]}
+           'interleave': i % 4 in (1, 2), 'idtype': ['bytes', 'str', 'int', 'sentinel'][i % 4]}
 
 
 def generate(tier, rng):
@@ -416,6 +468,24 @@ def generate(tier, rng):
     for name in names:
       yield {'kind': 'eval', **cfg, 'metric': name}
   yield from stat_cases(tier, rng)
+  if tier != 'quick':
+    # global configuration flags: ordinary cases re-run in one subprocess per flag.  The Models with per-position
+    # bases under PerDomainMetric are left out for rank_promotion='raise' (same root cause as the known finding) and
+    # the large Model for disable_jit (eager evaluation of ~45 metric configurations per batch is too slow)
+    r2 = random.Random(rng.randrange(10 ** 6))
+    seed = r2.randrange(1, 10 ** 6)
+    def sub_cases(model, names):
+      out = []
+      for api in ('evaluate_model', 'evaluator_global', 'evaluate_batch'):
+        b = gen_batches(r2, r2.randrange(2, 8), sizes=(4, 2))
+        cfg = {'pool_seed': seed, 'api': api, 'batches': b[:1] if api == 'evaluate_batch' else b, 'model': model, 'form': 'list'}
+        out += [{'kind': 'eval', **cfg, 'metric': n} for n in names]
+      rows = [r2.randrange(N_REAL) for _ in range(3)]
+      out += [{'kind': 'algebra', 'pool_seed': seed, 'rows': rows, 'model': model, 'metric': n} for n in names]
+      return out
+    yield {'kind': 'flagbatch', 'flag': 'jax_enable_x64', 'value': True, 'cases': sub_cases('dict', METRIC_NAMES)}
+    yield {'kind': 'flagbatch', 'flag': 'jax_numpy_rank_promotion', 'value': 'raise', 'cases': sub_cases('plain', PLAIN_NAMES)}
+    yield {'kind': 'flagbatch', 'flag': 'jax_disable_jit', 'value': True, 'cases': sub_cases('plain', PLAIN_NAMES)}
 
 
 # ---------------------------------------------------------------------------
@@ -453,7 +523,7 @@ def _view(cfg, pool):
   return ds.batch(batch_size=spec['batch_size'])
 
 
-def _mk_batch(pool, b, maskdt='bool', arr='np'):
+def _mk_batch(pool, b, maskdt='bool', arr='np', forder=0):
   import fedjax
   import jax.numpy as jnp
   rows = np.array(b['rows'], dtype=np.int64)
@@ -462,6 +532,10 @@ def _mk_batch(pool, b, maskdt='bool', arr='np'):
     out[fedjax.EXAMPLE_MASK_KEY] = np.array(b['mask'], dtype=np.bool_).astype(np.dtype(maskdt))
   if arr == 'jax':
     out = {k: jnp.asarray(v) for k, v in out.items()}
+  if forder:                                     # insertion order of the features (mask first / last / in the middle)
+    keys = list(out)
+    r = forder % len(keys)
+    out = {k: out[k] for k in keys[r:][::-1] + keys[:r]}
   return out
 
 
@@ -503,7 +577,9 @@ def _kept_check_and_store(st, res):
 def _flat_result(x, shape):
   a = np.asarray(x, np.float64)
   note = a.shape != tuple(shape)
-  a = np.broadcast_to(a, shape)          # zero() of per-position metrics has lower rank (see report)
+  if a.ndim < len(shape):                # zero() of per-position metrics has lower rank (see report): its axes are the LEADING ones
+    a = a.reshape(a.shape + (1,) * (len(shape) - a.ndim))
+  a = np.broadcast_to(a, shape)
   return [float(v) for v in a.reshape(-1)], bool(note)
 
 
@@ -554,7 +630,7 @@ def _run_config(cfg):
   api = cfg['api']
   form, kw = cfg.get('form', 'list'), bool(cfg.get('kw'))
   res, stats, extra_ok = {}, {}, True
-  feed = [_mk_batch(pool, b, cfg.get('maskdt', 'bool'), cfg.get('arr', 'np')) for b in batches]
+  feed = [_mk_batch(pool, b, cfg.get('maskdt', 'bool'), cfg.get('arr', 'np'), cfg.get('forder', 0) + j) for j, b in enumerate(batches)]
   params = {'p': np.zeros(2, np.float32)}
   before = _snapshot(feed, params)
   cm = jax.disable_jit() if cfg.get('ctx') == 'nojit' else contextlib.nullcontext()
@@ -571,7 +647,8 @@ def _run_config(cfg):
       if which not in st['evaluator']:
         st['evaluator'][which] = models.ModelEvaluator(model)
       ev = st['evaluator'][which]
-      me, other, none = {'bytes': (b'me', b'', b'none'), 'str': ('me', '', 'none'), 'int': (7, 0, 3)}[cfg.get('idtype', 'bytes')]
+      me, other, none = {'bytes': (b'me', b'', b'none'), 'str': ('me', '', 'none'), 'int': (7, 0, 3),
+                         'sentinel': (b'None', b'-1', b'__mask__')}[cfg.get('idtype', 'bytes')]
       if api == 'evaluator_global':
         clients = _deliver([(other, _deliver(feed[:1], form)), (me, _deliver(feed, form)), (none, [])], cfg.get('cform', 'list'))
         got = dict(ev.evaluate_global_params(params=params, clients=clients) if kw else ev.evaluate_global_params(params, clients))
@@ -600,8 +677,14 @@ def _run_config(cfg):
   slots = (real + [ZERO] * 16)[:16]
   use = np.array([True] * min(len(real), 16) + [False] * (16 - min(len(real), 16)))
   ref = None
-  if len(real) <= 16 and variant == 'std':
+  if len(real) <= 16 and variant == 'std' and which != 'pdpp':
     ref = _merge_fn(which)({k: v[np.array(slots)] for k, v in pool.items()}, use)
+  alt = None
+  if cfg.get('nf'):
+    # the same real rows, unpadded: one unmasked single-row batch per real example (same jitted code path per row)
+    alt_feed = [_mk_batch(pool, {'rows': [r], 'mask': None}) for r in real]
+    r2 = fedjax.evaluate_model(model, params, alt_feed)
+    alt = {k: r2[_mkey(which, k)] for k in grid}
   problems = []
   if _snapshot(feed, params) != before:
     problems.append('batch-modified')
@@ -611,7 +694,8 @@ def _run_config(cfg):
   for name in grid:
     kind, shape, _ = ps[name]
     flat, note = _flat_result(res[name], shape)
-    entry = {'result': flat, 'broadcast': note, 'stat': None, 'ref': None}
+    entry = {'result': flat, 'broadcast': note, 'stat': None, 'ref': None,
+             'alt': None if alt is None else _flat_result(alt[name], shape)[0]}
     if name in stats:
       s = stats[name]
       if kind == 'mean':
@@ -633,6 +717,12 @@ def _val(x):
 
 def _fin(v):
   return v if math.isfinite(v) else None
+
+
+def _run_flagbatch(case):
+  from lib import flagrun
+  obs, err = flagrun.run_cases('c05', case['cases'], {case['flag']: case['value']})
+  return {'error': None, 'sub': obs, 'sub_error': err, 'uncovered': []}
 
 
 def _run_stat(case):
@@ -766,6 +856,8 @@ def _run_evaluator_config(cfg):
   out = []
   def mkid(ci, i):
     t = cfg.get('idtype', 'bytes')
+    if t == 'sentinel':                          # ids that look like "absent" / internal keys, not in sorted order
+      return [b'None', b'-1', b'__mask__', b'c02', b'c00', b'c10', b''][(ci * 3 + i) % 7] + (b'' if ci == 0 else b'/%d' % ci)
     return (ci * 10 + i) if t == 'int' else ('' if (ci, i) == (0, 0) else 'call%d-client%d' % (ci, i)) if t == 'str' else \
         (b'' if (ci, i) == (0, 0) else b'call%d-client%d' % (ci, i))
   with fedjax.for_each_client_backend(cfg['backend']):
@@ -809,7 +901,12 @@ def _run_evaluator_config(cfg):
 def _run_evaluator(case):
   st = _setup()
   cfg = {k: case[k] for k in ('pool_seed', 'backend', 'calls', 'model', 'interleave', 'idtype') if k in case}
-  full = _run_evaluator_config(cfg)
+  try:
+    full = _run_evaluator_config(cfg)
+  except Exception as ex:  # pylint: disable=broad-except
+    if type(ex).__name__ == 'Hang':
+      raise
+    return {'error': type(ex).__name__, 'message': str(ex)[:200], 'uncovered': st['uncovered']}
   ps = pool_stats(case['pool_seed'])
   kind, shape, rows = ps[case['metric']]
   results = [[[_fin(v) for v in client[case['metric']]] for client in call] for call in full]
@@ -829,17 +926,32 @@ def run(case):
     return _run_algebra(case)
   if case['kind'] == 'evaluator':
     return _run_evaluator(case)
+  if case['kind'] == 'flagbatch':
+    return _run_flagbatch(case)
   st = _setup()
   cfg = {k: case[k] for k in CFG_KEYS if k in case}
-  full = _run_config(cfg)
+  try:
+    full = _run_config(cfg)
+  except Exception as ex:  # pylint: disable=broad-except
+    if type(ex).__name__ == 'Hang':
+      raise
+    return {'error': type(ex).__name__, 'message': str(ex)[:200], 'uncovered': st['uncovered']}
   e = full['metrics'][case['metric']]
   ps = pool_stats(case['pool_seed'], case.get('pool', 'std'))
   kind, shape, rows = ps[case['metric']]
+  if kind == 'error':
+    return {'error': 'evaluate_example', 'message': rows, 'uncovered': st['uncovered']}
   enc = lambda xs: None if xs is None else [_fin(v) for v in xs]
-  return {'batches': full['batches'], 'n_real': full['n_real'], 'extra_ok': full['extra_ok'], 'uncovered': st['uncovered'],
+  pd = None
+  if case['metric'] in PD_SPEC:
+    base, dims = PD_SPEC[case['metric']]
+    used = sorted({i for b in full['batches'] for i in b['rows']})
+    pd = {'base_kind': ps[base][0], 'dims': [d for _, d in dims],
+          'rows': {str(i): {'base': ps[base][2][i], 'ids': [int(ps['pool'][f][i]) for f, _ in dims]} for i in used}}
+  return {'error': None, 'pd': pd, 'api_is_model': case['api'] != 'evaluate_batch', 'batches': full['batches'], 'n_real': full['n_real'], 'extra_ok': full['extra_ok'], 'uncovered': st['uncovered'],
           'problems': full['problems'],
           'stat_kind': kind, 'K': int(np.prod(shape, dtype=np.int64)), 'broadcast': e['broadcast'],
-          'result': enc(e['result']), 'stat': enc(e['stat']), 'ref': enc(e['ref']),
+          'result': enc(e['result']), 'stat': enc(e['stat']), 'ref': enc(e['ref']), 'alt': enc(e.get('alt')),
           'rows': {str(i): rows[i] for b in full['batches'] for i in b['rows']}}
 
 
@@ -851,13 +963,29 @@ def _value_kind(case):
 
 
 def oracle(case, obs):
+  if case['kind'] == 'flagbatch':
+    if obs['sub'] is None:
+      return [('flag-subprocess-failed', f'{case["flag"]}={case["value"]}: {obs["sub_error"]}')]
+    out = []
+    for c, o in zip(case['cases'], obs['sub']):
+      out += [(f'{case["flag"]}:{k}', w) for k, w in _oracle(c, o)]
+    return out[:5]
+  return _oracle(case, obs)
+
+
+def _oracle(case, obs):
   out = []
+  if obs.get('error') and case['kind'] in ('algebra', 'stat'):
+    return [('raises-' + obs['error'], f'{case.get("metric", case.get("op"))} ({case["kind"]}): raised {obs["error"]}: {obs.get("message")}')]
   if case['kind'] == 'stat':
     return _stat_oracle(case, obs)
   if case['kind'] == 'algebra':
     return _algebra_oracle(case, obs)
   if case['kind'] == 'evaluator':
     return _evaluator_oracle(case, obs)
+  if obs.get('error'):
+    key = 'per-domain-per-position-raises' if case.get('model') == 'pdpp' else 'raises-' + obs['error']
+    return [(key, f'{case["metric"]} ({case.get("api", case["kind"])}): evaluation raised {obs["error"]}: {obs.get("message")}')]
   if obs['uncovered']:
     out.append(('uncovered-metric', 'built-in metric classes without a harness entry: ' + ', '.join(obs['uncovered'])))
   for pr in obs.get('problems', []):
@@ -868,6 +996,19 @@ def oracle(case, obs):
   res, ref = obs['result'], obs['ref']
   name = case['metric']
   tol = float(TOL_CE if _value_kind(case) == 'ce' else TOL_INT) * 4
+  if case.get('nf'):
+    # non-finite predictions on REAL rows: eager and jitted evaluate_example already disagree there (XLA turns the
+    # multiplicative token masks into selects), so the single-example statistics are no reference; what must hold is
+    # that the padded / batched evaluation and the unpadded one-row-per-batch evaluation give the SAME answer,
+    # non-finite entries included
+    alt = obs['alt']
+    if obs['api_is_model'] and alt is not None:
+      bad = [i for i, (a, b) in enumerate(zip(res, alt))
+             if (a is None) != (b is None) or (a is not None and abs(a - b) > tol * (1 + abs(b)))]
+      if bad:
+        out.append(('nonfinite-batching-differs', f'{name}: padded / batched evaluation gives {res[bad[0]]} in entry {bad[0]}, '
+                    f'the same real rows one per unpadded batch give {alt[bad[0]]}'))
+    return out
   real_finite = all(_row_finite(obs['rows'][str(r)]) for b in obs['batches']
                     for r, m in zip(b['rows'], b['mask'] or [True] * len(b['rows'])) if m)
   if obs['n_real'] == 0:
@@ -890,6 +1031,29 @@ def oracle(case, obs):
       if res[i] is None or abs(res[i] - want) > tol * (1 + abs(want)):
         out.append(('not-sum-of-fields', f'{name}: entry {i} is {res[i]}, the single-example statistics give {want}'))
         break
+  if obs.get('pd') and real_finite:
+    # the per-domain definition, from the BASE metric's single-example statistics and the domain features
+    pd = obs['pd']
+    reals_i = [r for b in obs['batches'] for r, m in zip(b['rows'], b['mask'] or [True] * len(b['rows'])) if m]
+    import itertools
+    kb = obs['K'] // int(np.prod(pd['dims']))
+    pos = 0
+    for ids in itertools.product(*[range(d) for d in pd['dims']]):
+      mine = [pd['rows'][str(r)]['base'] for r in reals_i if tuple(pd['rows'][str(r)]['ids']) == ids]
+      for k in range(kb):
+        if pd['base_kind'] == 'mean':
+          sa, sw = sum(r[k][0] for r in mine), sum(r[k][1] for r in mine)
+          want = sa / sw if sw != 0 else 0.0
+        else:
+          want = sum(r[k] for r in mine)
+        got = res[pos]
+        pos += 1
+        if got is None or abs(got - want) > tol * (1 + abs(want)):
+          out.append(('per-domain-definition', f'{name}: domains {ids}, base entry {k}: {got}, the base metric over the examples of that domain gives {want}'))
+          break
+      else:
+        continue
+      break
   if ref is not None:
     bad = [i for i, (a, b) in enumerate(zip(res, ref))
            if (a is None) != (b is None) or (a is not None and abs(a - b) > tol * (1 + abs(b)))]
@@ -900,6 +1064,12 @@ def oracle(case, obs):
 
 
 def _evaluator_oracle(case, obs):
+  if obs.get('error'):
+    return [('raises-' + obs['error'], f'{case["metric"]}: ModelEvaluator under {case["backend"]} raised {obs["error"]}: {obs.get("message")}')]
+  return _evaluator_oracle2(case, obs)
+
+
+def _evaluator_oracle2(case, obs):
   """Every client of every call on the same ModelEvaluator gets the result of ITS OWN examples folded
   from zero (independent reference: sum(accum)/sum(weight) resp. sum(accum) of its real rows); a
   client without real rows gets 0."""
@@ -1037,6 +1207,8 @@ def _nql(vs):
 
 
 def encode(case, obs):
+  if obs.get('error') or case['kind'] == 'flagbatch' or case.get('nf'):
+    return None
   if case['kind'] == 'stat' and case['op'] == 'apply_mask':
     return None
   if case['kind'] == 'stat':
@@ -1064,6 +1236,19 @@ def encode(case, obs):
     case = {**case, 'api': 'evaluate_model'}
   if case['kind'] == 'evaluator':
     case = {**case, 'api': 'evaluator_global'}
+  pd = obs.get('pd')
+  if pd and len(pd['dims']) == 1 and case.get('api') not in ('evaluate_batch', 'evaluate_batch_nomask') and len(obs['batches']) % 2 == 0:
+    # the wrapper built INSIDE Coq from the base metric's statistics and the domain ids (translated per_domain_example)
+    reals = [r for b in obs['batches'] for r, m in zip(b['rows'], b['mask'] or [True] * len(b['rows'])) if m]
+    mean = pd['base_kind'] == 'mean'
+    kb = obs['K'] // pd['dims'][0]
+    def brow(i):
+      r = pd['rows'][str(i)]
+      ent = '[' + '; '.join(f'({_nq(a)}, {_nq(w)})' for a, w in r['base']) + ']' if mean else _nql(r['base'])
+      return f'({r["ids"][0]}%nat, {ent})'
+    c = f'{"CMeanPD" if mean else "CSumPD"} {pd["dims"][0]}%nat {kb}%nat [' + '; '.join(brow(i) for i in reals) + ']'
+    tol = TOL_CE if _value_kind(case) == 'ce' else TOL_INT
+    return f'(({c})%Q, mkO05 {fw.qlit(tol)} {_nql(obs["result"])}%Q None)'
   api = case['api']
   capi = {'evaluate_model': 'ApiModel', 'evaluator_global': 'ApiEvaluator', 'evaluator_per_client': 'ApiEvaluator',
           'evaluate_batch': 'ApiBatch', 'evaluate_batch_nomask': 'ApiBatch'}[api]
@@ -1085,6 +1270,8 @@ def encode(case, obs):
 
 
 def nontrivial(case, obs):
+  if obs.get('error') or case['kind'] == 'flagbatch':
+    return False
   if case['kind'] == 'stat':
     return case['op'] in ('merge', 'reduce')
   if case['kind'] == 'algebra':
@@ -1097,6 +1284,10 @@ def nontrivial(case, obs):
 
 
 def describe(case, obs):
+  if case['kind'] == 'flagbatch':
+    return {'kind': 'flagbatch', 'flag': case['flag']}
+  if obs.get('error'):
+    return {'kind': case['kind'], 'error': obs['error'], 'model': case.get('model')}
   if case['kind'] == 'stat':
     return {'kind': 'stat-' + case['op']}
   if case['kind'] == 'evaluator':
@@ -1105,7 +1296,11 @@ def describe(case, obs):
   if case['kind'] == 'algebra':
     return {'kind': 'algebra', 'metric': case['metric'], 'field_dtypes': '/'.join(obs['singles'][0]['dtypes'])}
   bs = obs['batches']
-  return {'kind': 'eval', 'api': case['api'], 'metric': case['metric'], 'form': case.get('form', 'list'),
+  # hypothesis of C05_batch_is_fold_of_examples: the real rows' statistics are finite and in the Stat's domain
+  reals = [obs['rows'][str(r)] for b in bs for r, m in zip(b['rows'], b['mask'] or [True] * len(b['rows'])) if m]
+  indom = all((math.isfinite(e[0]) and math.isfinite(e[1]) and ((e[0] == 0 and e[1] == 0) or e[1] > 0)) if isinstance(e, (list, tuple))
+              else math.isfinite(e) for r in reals for e in r)
+  return {'kind': 'eval', 'api': case['api'], 'metric': case['metric'], 'hyp_real_rows_in_domain': indom, 'form': case.get('form', 'list'),
           'maskdt': case.get('maskdt', 'bool'), 'arrays': case.get('arr', 'np'), 'kw': bool(case.get('kw')),
           'ctx': case.get('ctx', 'jit'), 'pool': case.get('pool', 'std'), 'model': case['model'], 'again': bool(case.get('again')),
           'source': 'explicit' if isinstance(case['batches'], list) else list(case['batches'])[0],
